@@ -120,8 +120,8 @@ type Analyzer struct {
 	F     []Finding
 	recov []byte
 	// statistics for evidence
-	NegRsp, Accepted, Teardowns, StaleIntra, URepIEs, TermReports, ImmReports int
-	NoFaults                                                                   bool
+	NegRsp, Accepted, Teardowns, StaleIntra, URepIEs, TermReports, ImmReports, Dups int
+	NoFaults                                                                        bool
 }
 
 func (a *Analyzer) add(prop, sig, desc string, step int) {
@@ -173,8 +173,12 @@ func Analyze(tr *Trace) *Analyzer {
 		}
 		op := st.Op
 		i := st.I
+		if op.K == "dup" {
+			a.dup(st)
+			continue
+		}
 		// ---- classify the request against the model's pre-state ----
-		var target *mSess           // session addressed (mod/del/urep) when live
+		var target *mSess            // session addressed (mod/del/urep) when live
 		targets := map[uint64]bool{} // UP SEIDs this step may touch
 		ending := map[uint64]bool{}  // sessions that end in this step
 		expectRsp := false
@@ -460,6 +464,18 @@ func Analyze(tr *Trace) *Analyzer {
 				a.Teardowns++
 			}
 		case "est", "mod":
+			if target != nil && op.K == "mod" && op.Takeover > 0 && accepted {
+				// the session's control moves to the new node id (the old node owned nothing else)
+				nw := op.Takeover - 1
+				old := a.nodes[target.node]
+				addr := ""
+				if old != nil {
+					addr = old.addr
+				}
+				delete(a.nodes, target.node)
+				a.nodes[nw] = &mNode{assoc: true, addr: addr}
+				target.node = nw
+			}
 			if target != nil {
 				a.c11c12(st, target, false)
 				for _, r := range op.Create {
@@ -852,5 +868,50 @@ func (a *Analyzer) c11c12(st *Step, s *mSess, deletion bool) {
 				delete(s.dpURR, id)
 			}
 		}
+	}
+}
+
+// dup: a retransmitted request (same bytes, same socket, inside the retention
+// window) must change nothing and be re-answered with the original response.
+func (a *Analyzer) dup(st *Step) {
+	i := st.I
+	if st.Op.Ref >= len(a.tr.Steps) {
+		return
+	}
+	orig := a.tr.Steps[st.Op.Ref]
+	if st.Req == nil {
+		return
+	}
+	a.Dups++
+	if len(st.Calls) > 0 {
+		a.add("C06", "duplicate-executed", fmt.Sprintf("retransmission of step %d caused data-plane calls %s", st.Op.Ref, J(st.Calls)), i)
+	}
+	if !reflect.DeepEqual(st.Pre.Slots, st.Post.Slots) || !reflect.DeepEqual(st.Pre.Free, st.Post.Free) || !reflect.DeepEqual(st.Pre.Nodes, st.Post.Nodes) ||
+		!reflect.DeepEqual(st.DPPre, st.DPPost) {
+		a.add("C06", "duplicate-changed-state", fmt.Sprintf("retransmission of step %d changed session, node or data-plane state", st.Op.Ref), i)
+	}
+	for k, d := range st.Extra {
+		if d.M == nil {
+			continue
+		}
+		a.add("C08", "retransmission-answer-mismatch", fmt.Sprintf("retransmission of step %d (seq %d from SMF %d socket %d) was answered with a datagram of type %d seq %d SEID %#x at SMF %d socket %d",
+			st.Op.Ref, st.Seq, st.Op.Node, st.Op.Sock, d.M.Type, d.M.Seq, d.M.SEID, st.ExtraAt[k], d.Sock), i)
+	}
+	switch {
+	case orig.Rsp == nil && st.Rsp != nil:
+		a.add("C06", "duplicate-answered-without-original", fmt.Sprintf("step %d was not answered but its retransmission was", st.Op.Ref), i)
+	case orig.Rsp != nil && st.Rsp == nil:
+		if st.Drops == 0 {
+			a.add("C06", "duplicate-not-reanswered", fmt.Sprintf("retransmission of step %d was not re-answered (with its own sequence number)", st.Op.Ref), i)
+		}
+	case orig.Rsp != nil && !bytes.Equal(orig.Rsp.B, st.Rsp.B):
+		a.add("C06", "duplicate-answer-differs", fmt.Sprintf("retransmission of step %d re-answered with %x, original %x", st.Op.Ref, st.Rsp.B, orig.Rsp.B), i)
+		if st.Rsp.M != nil && orig.Rsp.M != nil && (st.Rsp.M.SEID != orig.Rsp.M.SEID || st.Rsp.M.Type != orig.Rsp.M.Type) {
+			a.add("C08", "retransmission-answer-mismatch", fmt.Sprintf("retransmission of step %d answered with type %d SEID %#x, original answer type %d SEID %#x",
+				st.Op.Ref, st.Rsp.M.Type, st.Rsp.M.SEID, orig.Rsp.M.Type, orig.Rsp.M.SEID), i)
+		}
+	}
+	if st.Rsp != nil && st.Rsp.Sock != st.Op.Sock {
+		a.add("C08", "misrouted-response", fmt.Sprintf("answer to a retransmission arrived at socket %d, request left from socket %d", st.Rsp.Sock, st.Op.Sock), i)
 	}
 }
